@@ -44,6 +44,11 @@ func svc(name string, selector map[string]string, opts ...func(*corev1.Service))
 	return s
 }
 
+// hidden: the service is exported to nobody
+func hidden(s *corev1.Service) {
+	s.Annotations = map[string]string{"networking.istio.io/exportTo": "~"}
+}
+
 type podOpt func(*corev1.Pod)
 
 func pod(name, ip string, labels map[string]string, sa string, ready bool, opts ...podOpt) *corev1.Pod {
@@ -177,6 +182,24 @@ func scenarios() []scenario {
 			Chains: [][]event{
 				{ev("create", svc("a", map[string]string{"app": "a"}), "svc+"), ev("delete", svc("a", map[string]string{"app": "a"}), "svc-"), ev("create", svc("a", map[string]string{"app": "a"}), "svc+again")},
 				{ev("create", slice("a-1", "a", sliceEp{"10.0.0.1", "p1", true}), "slice+"), ev("delete", slice("a-1", "a"), "slice-")},
+			},
+		},
+		{
+			// a service hidden from everybody (exportTo "~") receives slice events and becomes visible later
+			Name: "S11-hidden-service-becomes-visible", Base: []runtime.Object{node("z1"), pod("p1", "10.0.0.1", la, "sa1", true), pod("p2", "10.0.0.2", la, "sa2", true)},
+			Chains: [][]event{
+				{ev("create", svc("a", map[string]string{"app": "a"}, hidden), "svc+hidden"), ev("update", svc("a", map[string]string{"app": "a"}), "svc.visible")},
+				{ev("create", slice("a-1", "a", sliceEp{"10.0.0.1", "p1", true}, sliceEp{"10.0.0.2", "p2", true}), "slice+{1,2}"), ev("update", slice("a-1", "a", sliceEp{"10.0.0.1", "p1", true}), "slice={1}")},
+			},
+		},
+		{
+			// a pod loses its address, is deleted and comes back under the same name with the same address
+			Name: "S12-pod-recreated-with-same-name-and-ip", Base: []runtime.Object{node("z1"), svc("a", map[string]string{"app": "a"})},
+			Chains: [][]event{
+				{ev("create", pod("p1", "10.0.0.1", la, "sa1", true), "p1+"), ev("update", pod("p1", "", la, "sa1", false), "p1.noip"), ev("delete", pod("p1", "", la, "sa1", false), "p1-"), ev("create", pod("p1", "10.0.0.1", la2, "sa2", true), "p1+again")},
+				// Kubernetes takes the endpoint out of the slice when the pod goes and puts it back when the new
+				// pod is ready; the registry may see these updates in any order relative to the pod events
+				{ev("create", slice("a-1", "a", sliceEp{"10.0.0.1", "p1", true}), "slice+"), ev("update", slice("a-1", "a"), "slice={}"), ev("update", slice("a-1", "a", sliceEp{"10.0.0.1", "p1", true}), "slice={p1}")},
 			},
 		},
 		{
@@ -419,7 +442,8 @@ func TestC15(t *testing.T) {
 				live, cold, labels := runCase(t, sc, r.Order, r.Burst)
 				t.Logf("order %v\nlive:\n%s\ncold:\n%s", labels, live, cold)
 				if live != cold {
-					res.Violate("diverges:"+sc.Name, firstDiffLine(live, cold), r)
+					d := firstDiffLine(live, cold)
+					res.Violate("diverges:"+sc.Name+":"+classify(d), d, r)
 				}
 			}
 		}
